@@ -35,10 +35,10 @@ def gen(r, tier, i):
     return case
 
 
-def make_probe():
-    from vivarium.core.process import Process
+def make_probe(step=False):
+    from vivarium.core.process import Process, Step
 
-    class Probe(Process):
+    class Probe(Step if step else Process):
         def __init__(self, parameters=None):
             super().__init__(parameters)
             self.seen = []
@@ -97,9 +97,21 @@ def run(spec):
         else:
             procs['owner'] = owner
         tops['owner'] = otop
+    steps = {}
+    for mpath, msch, mtop, mstep in topo.member_parts(spec):
+        # passive processes / steps living inside glob children
+        inst = (make_probe(True) if mstep else Probe)({'schema': msch, 'plan': [], 'timestep': 1.0})
+        node = steps if mstep else procs
+        for k in mpath[:-1]:
+            node = node.setdefault(k, {})
+        node[mpath[-1]] = inst
+        node = tops
+        for k in mpath[:-1]:
+            node = node.setdefault(k, {})
+        node[mpath[-1]] = mtop
     stats = {}
     try:
-        e = Engine(processes=procs, topology=tops, initial_state=copy.deepcopy(init), display_info=False,
+        e = Engine(processes=procs, steps=steps or None, topology=tops, initial_state=copy.deepcopy(init), display_info=False,
                    emitter='null')
     except Exception as ex:
         import traceback
